@@ -256,6 +256,16 @@ where
         Ok(())
     }
 
+    /// An operation already started on the chip failed part-way (bus error, busy time-out,
+    /// interrupt wait error): bring the chip back to standby on a best-effort basis and record
+    /// it, so that chip and driver agree again. Returns the original error.
+    async fn abort_to_standby(&mut self, err: RadioError) -> RadioError {
+        if self.radio_kind.ensure_ready(self.radio_mode).await.is_ok() && self.radio_kind.set_standby().await.is_ok() {
+            self.radio_mode = RadioMode::Standby;
+        }
+        err
+    }
+
     /// Execute a transmit operation
     ///
     /// # Warning
@@ -263,9 +273,13 @@ where
     /// Do not call this function within a select branch or in any context where it may be prematurely canceled.
     pub async fn tx(&mut self) -> Result<(), RadioError> {
         if let RadioMode::Transmit = self.radio_mode {
-            self.radio_kind.do_tx().await?;
+            if let Err(err) = self.radio_kind.do_tx().await {
+                return Err(self.abort_to_standby(err).await);
+            }
             loop {
-                self.wait_for_irq().await?;
+                if let Err(err) = self.wait_for_irq().await {
+                    return Err(self.abort_to_standby(err).await);
+                }
                 match self.radio_kind.process_irq_event(self.radio_mode, None, true).await {
                     Ok(Some(IrqState::Done | IrqState::PreambleReceived)) => {
                         self.radio_mode = RadioMode::Standby;
@@ -316,7 +330,10 @@ where
         if let RadioMode::Receive(listen_mode) = self.radio_mode {
             self.radio_kind.set_standby().await?;
             self.radio_kind.set_channel(frequency_in_hz).await?;
-            self.radio_kind.do_rx(listen_mode).await
+            match self.radio_kind.do_rx(listen_mode).await {
+                Ok(()) => Ok(()),
+                Err(err) => Err(self.abort_to_standby(err).await),
+            }
         } else {
             Err(RadioError::InvalidRadioMode)
         }
@@ -326,7 +343,10 @@ where
     /// Call [`LoRa::complete_rx`] to wait and handle result.
     pub async fn start_rx(&mut self) -> Result<(), RadioError> {
         if let RadioMode::Receive(listen_mode) = self.radio_mode {
-            self.radio_kind.do_rx(listen_mode).await
+            match self.radio_kind.do_rx(listen_mode).await {
+                Ok(()) => Ok(()),
+                Err(err) => Err(self.abort_to_standby(err).await),
+            }
         } else {
             Err(RadioError::InvalidRadioMode)
         }
@@ -348,8 +368,15 @@ where
                     Ok(Some(actual_state)) => match actual_state {
                         IrqState::PreambleReceived => (),
                         IrqState::Done => {
-                            let received_len = self.radio_kind.get_rx_payload(packet_params, receiving_buffer).await?;
-                            let rx_pkt_status = self.radio_kind.get_rx_packet_status().await?;
+                            let received_len =
+                                match self.radio_kind.get_rx_payload(packet_params, receiving_buffer).await {
+                                    Ok(len) => len,
+                                    Err(err) => return Err(self.abort_to_standby(err).await),
+                                };
+                            let rx_pkt_status = match self.radio_kind.get_rx_packet_status().await {
+                                Ok(status) => status,
+                                Err(err) => return Err(self.abort_to_standby(err).await),
+                            };
                             return Ok((received_len, rx_pkt_status));
                         }
                     },
@@ -364,7 +391,9 @@ where
                         return Err(err);
                     }
                 }
-                self.wait_for_irq().await?;
+                if let Err(err) = self.wait_for_irq().await {
+                    return Err(self.abort_to_standby(err).await);
+                }
             }
         } else {
             Err(RadioError::InvalidRadioMode)
@@ -424,7 +453,9 @@ where
         )?;
         self.radio_kind.set_modulation_params(&modulation_params).await?;
         self.radio_mode = RadioMode::Listen;
-        self.radio_kind.do_rx(RxMode::Continuous).await?;
+        if let Err(err) = self.radio_kind.do_rx(RxMode::Continuous).await {
+            return Err(self.abort_to_standby(err).await);
+        }
 
         Ok(())
     }
@@ -452,10 +483,14 @@ where
     /// Do not call this function within a select branch or in any context where it may be prematurely canceled.
     pub async fn cad(&mut self, mdltn_params: &ModulationParams) -> Result<bool, RadioError> {
         if self.radio_mode == RadioMode::ChannelActivityDetection {
-            self.radio_kind.do_cad(mdltn_params).await?;
+            if let Err(err) = self.radio_kind.do_cad(mdltn_params).await {
+                return Err(self.abort_to_standby(err).await);
+            }
             let mut cad_activity_detected = false;
             loop {
-                self.wait_for_irq().await?;
+                if let Err(err) = self.wait_for_irq().await {
+                    return Err(self.abort_to_standby(err).await);
+                }
                 match self
                     .radio_kind
                     .process_irq_event(self.radio_mode, Some(&mut cad_activity_detected), true)
